@@ -30,8 +30,8 @@ def run(ctx, prop):
         for t, v in tests:
             ctx.check(v == "ok", rule, t.replace("src/lib.rs - ", ""), "witnesses/src/lib.rs",
                       "witness holds" if "compile fail" in t else "compiling twin builds", "witness/twin result: %s" % v, nontrivial="compile fail" in t)
-        ctx.floor(rule, "compile_fail witnesses", n_cf, 7)
-        ctx.floor(rule, "compiling twins", n_tw, 6)
+        ctx.floor(rule, "compile_fail witnesses", n_cf, 10)
+        ctx.floor(rule, "compiling twins", n_tw, 8)
         return {"witnesses": {"compile_fail": n_cf, "twins": n_tw}}
     finally:
         shutil.rmtree(tmp, ignore_errors=True)
